@@ -2,23 +2,24 @@
    harness's S-expressions into model values and, per case family, a runner that evaluates
    the model and the property's specification predicate on the implementation's observables.
    The same runners are evaluated by the extracted OCaml driver and by vm_compute inside Coq. *)
-From Coq Require Import String.
 Require Import Base.Bytes Gen.Tables.
 Require Import Model.Util Model.Headers Model.Methods Model.Origins Model.Netip Model.Idna
   Model.Pattern Model.Radix Model.CfgErrors Model.Config Model.Serve Model.Mw.
-Require Import Spec.Origins Spec.AcrhList.
+Require Import Spec.Origins Spec.AcrhList Spec.Wire Spec.Fetch Spec.ConfigDoc.
 Open Scope N_scope.
-Open Scope string_scope.
-Delimit Scope string_scope with string.
+Import Coq.Strings.String.StringSyntax.
+Arguments b _%string_scope.
 
 Inductive sx := SB (s : bytes) | SI (z : Z) | SY (name : bytes) | SL (l : list sx).
 
 Definition sym (s : String.string) : sx := SY (b s).
+Arguments sym _%string_scope.
 Definition sbool (x : bool) : sx := SI (if x then 1 else 0)%Z.
 
 Definition is_sym (s : String.string) (x : sx) : bool :=
   match x with SY n => beqb n (b s) | _ => false end.
 
+Arguments is_sym _%string_scope _.
 Definition get_bytes (x : sx) : bytes := match x with SB s => s | _ => [] end.
 Definition get_int (x : sx) : Z := match x with SI z => z | _ => 0%Z end.
 Definition get_bool (x : sx) : bool := match x with SI z => negb (z =? 0)%Z | _ => false end.
@@ -33,6 +34,7 @@ Fixpoint field (k : String.string) (l : list sx) : sx :=
   | [] => SL []
   end.
 
+Arguments field _%string_scope _.
 Fixpoint sx_eqb (x y : sx) {struct x} : bool :=
   match x, y with
   | SB s, SB t => beqb s t
@@ -115,6 +117,97 @@ Definition ip6_of (tbl : list sx) (h : bytes) : ipres :=
 Definition enc_origin_res (r : option bool) : sx :=
   match r with None => sym "noparse" | Some c => sbool c end.
 
+
+(* ---------- decoders / encoders for configurations, requests, header maps, outcomes ---------- *)
+Definition dec_hmap (x : sx) : hmap :=
+  flat_map (fun kv => match kv with SL [SB k; SL vs] => [(k, map get_bytes vs)] | _ => [] end) (get_list x).
+
+Fixpoint hmap_insert (kv : bytes * list bytes) (m : hmap) : hmap :=
+  match m with
+  | [] => [kv]
+  | kv' :: r => if bleb (fst kv) (fst kv') then kv :: m else kv' :: hmap_insert kv r
+  end.
+Definition sort_hmap (m : hmap) : hmap := fold_right hmap_insert [] m.
+Definition enc_hmap (m : hmap) : sx := SL (map (fun kv => SL [SB (fst kv); SL (map SB (snd kv))]) (sort_hmap m)).
+
+Definition dec_config (x : sx) : option config :=
+  match x with
+  | SL l =>
+      Some {| c_origins := get_blist (field "origins" l);
+              c_credentialed := get_bool (field "cred" l);
+              c_methods := get_blist (field "methods" l);
+              c_req_headers := get_blist (field "reqhdrs" l);
+              c_max_age := get_int (field "maxage" l);
+              c_res_headers := get_blist (field "reshdrs" l);
+              c_status := get_int (field "status" l);
+              c_pna := get_bool (field "pna" l);
+              c_pna_nocors := get_bool (field "pnanocors" l);
+              c_tol_insecure := get_bool (field "tolinsecure" l);
+              c_tol_psl := get_bool (field "tolpsl" l) |}
+  | _ => None     (* the symbol nil: no configuration *)
+  end.
+
+Definition enc_config (c : config) : sx :=
+  SL [SL [sym "origins"; SL (map SB (c_origins c))]; SL [sym "cred"; sbool (c_credentialed c)];
+      SL [sym "methods"; SL (map SB (c_methods c))]; SL [sym "reqhdrs"; SL (map SB (c_req_headers c))];
+      SL [sym "maxage"; SI (c_max_age c)]; SL [sym "reshdrs"; SL (map SB (c_res_headers c))];
+      SL [sym "status"; SI (c_status c)]; SL [sym "pna"; sbool (c_pna c)]; SL [sym "pnanocors"; sbool (c_pna_nocors c)];
+      SL [sym "tolinsecure"; sbool (c_tol_insecure c)]; SL [sym "tolpsl"; sbool (c_tol_psl c)]].
+
+Definition dec_request (x : sx) : request :=
+  let l := get_list x in
+  {| r_method := get_bytes (field "method" l); r_hdrs := dec_hmap (field "hdrs" l) |}.
+
+Definition dec_outcome (x : sx) : outcome :=
+  let l := get_list x in
+  let st := get_int (field "status" l) in
+  {| o_hdrs := dec_hmap (field "hdrs" l);
+     o_status := if (st <? 0)%Z then None else Some st;
+     o_delegated := get_bool (field "delegated" l) |}.
+
+Definition enc_outcome (o : outcome) : sx :=
+  SL [SL [sym "status"; SI (match o_status o with Some s => s | None => (-1)%Z end)];
+      SL [sym "delegated"; sbool (o_delegated o)];
+      SL [sym "hdrs"; enc_hmap (o_hdrs o)]].
+
+Definition outcome_same (a c : outcome) : bool := sx_eqb (enc_outcome a) (enc_outcome c).
+
+Definition enc_reason (r : reason) : sx :=
+  match r with
+  | RMissing => sym "missing" | RInvalid => sym "invalid" | RProhibited => sym "prohibited"
+  | RForbidden => sym "forbidden" | RCredentialed => sym "credentialed" | RPna => sym "pna" | RPsl => sym "psl"
+  end.
+
+Definition enc_cerr (e : cerr) : sx :=
+  match e with
+  | EOrigin v r => SL [sym "origin"; SB v; enc_reason r]
+  | EMethod v r => SL [sym "method"; SB v; enc_reason r]
+  | EHeader v t r => SL [sym "header"; SB v; (match t with TRequest => sym "request" | TResponse => sym "response" end); enc_reason r]
+  | EMaxAge v d m x => SL [sym "maxage"; SI v; SI d; SI m; SI x]
+  | EStatus v d mn mx => SL [sym "status"; SI v; SI d; SI mn; SI mx]
+  | EIncompatOrigin v r => SL [sym "incompat-origin"; SB v; enc_reason r]
+  | EIncompatPNA => SL [sym "incompat-pna"]
+  | EIncompatWildcardResHdr => SL [sym "incompat-wildcard-reshdr"]
+  end.
+
+(* multiset comparison of encoded errors *)
+Fixpoint remove_first (x : sx) (l : list sx) : option (list sx) :=
+  match l with
+  | [] => None
+  | y :: r => if sx_eqb x y then Some r else match remove_first x r with Some r' => Some (y :: r') | None => None end
+  end.
+Fixpoint multiset_eqb (a c : list sx) : bool :=
+  match a with
+  | [] => match c with [] => true | _ => false end
+  | x :: a' => match remove_first x c with Some c' => multiset_eqb a' c' | None => false end
+  end.
+
+Definition has_sym (k : String.string) (l : list sx) : bool := existsb (is_sym k) l.
+
+Arguments has_sym _%string_scope _.
+Definition cors_free (m : hmap) : bool :=
+  forallb (fun kv => negb (mem (fst kv) (h_vary :: grant_names)) || beqb (fst kv) h_vary) m.
+
 Section WithOracles.
 Variable ace : bytes -> bool.
 Variable ip6 : bytes -> ipres.
@@ -140,6 +233,112 @@ Definition run_tree (x : sx) : sx :=
           (sx_eqb (enc spec) (SL impl))
           (SL [enc model; SL (map SB me)]).
 
+
+(* parsed non-"*" patterns of a configuration (the spec side of "allowed origin") *)
+Definition cfg_patterns (c : config) : list pattern :=
+  flat_map (fun raw => match parse_pattern ace ip6 raw with inl p => [p] | inr _ => [] end) (c_origins c).
+
+Definition model_state (cfgx : sx) (debug : bool) : option (option icfg * bool) :=
+  match dec_config cfgx with
+  | None => Some (None, false)
+  | Some c => match new_internal_config ace ip6 psl c with
+              | inl ic => Some (Some ic, debug)
+              | inr _ => None
+              end
+  end.
+
+(* ---------- serve: one request against one middleware state (C03, C11, C16) ---------- *)
+Definition run_serve (x : sx) : sx :=
+  let l := get_list x in
+  let debug := get_bool (field "debug" l) in
+  let r := dec_request (field "req" l) in
+  let pre := dec_hmap (field "pre" l) in
+  let impl := dec_outcome (field "impl" l) in
+  let want := get_list (field "want" l) in
+  match model_state (field "cfg" l) debug with
+  | None => verdict false true (sym "model-rejects-config")
+  | Some (st, dbg) =>
+      let m := serve st dbg r pre in
+      let holds :=
+        match dec_config (field "cfg" l) with
+        | None => (if has_sym "c11" want then c11_ok false r pre impl else true)
+        | Some c =>
+            (if has_sym "c03" want && cors_free pre then c03_ok c (cfg_patterns c) r impl else true) &&
+            (if has_sym "c11" want then c11_ok true r pre impl else true) &&
+            (if has_sym "c16" want && negb debug && is_preflight r && cors_free pre then c16_ok c r pre impl else true)
+        end in
+      verdict (outcome_same m impl) holds (enc_outcome m)
+  end.
+
+(* ---------- pair: two requests, same state (C10) ---------- *)
+Definition run_pair (x : sx) : sx :=
+  let l := get_list x in
+  let debug := get_bool (field "debug" l) in
+  let r1 := dec_request (field "req1" l) in
+  let r2 := dec_request (field "req2" l) in
+  let pre := dec_hmap (field "pre" l) in
+  let i1 := dec_outcome (field "impl1" l) in
+  let i2 := dec_outcome (field "impl2" l) in
+  match model_state (field "cfg" l) debug with
+  | None => verdict false true (sym "model-rejects-config")
+  | Some (st, dbg) =>
+      let m1 := serve st dbg r1 pre in
+      let m2 := serve st dbg r2 pre in
+      verdict (outcome_same m1 i1 && outcome_same m2 i2)
+              (c10_ok r1 r2 i1 i2 && vary_preserved pre i1 && vary_preserved pre i2)
+              (SL [enc_outcome m1; enc_outcome m2])
+  end.
+
+(* ---------- intent: the browser's end-to-end verdict (C02) ---------- *)
+Definition dec_intent (x : sx) : intent :=
+  let l := get_list x in
+  {| in_origin := get_bytes (field "origin" l); in_method := get_bytes (field "method" l);
+     in_headers := get_blist (field "headers" l); in_credentials := get_bool (field "credentials" l);
+     in_pna := get_bool (field "pna" l) |}.
+
+Definition run_intent (x : sx) : sx :=
+  let l := get_list x in
+  let debug := get_bool (field "debug" l) in
+  let i := dec_intent (field "intent" l) in
+  let lines := get_blist (field "lines" l) in
+  let ip := dec_outcome (field "implpre" l) in
+  let ia := dec_outcome (field "implact" l) in
+  match dec_config (field "cfg" l), model_state (field "cfg" l) debug with
+  | Some c, Some (st, dbg) =>
+      let mp := serve st dbg (preflight_request i lines) [] in
+      let ma := serve st dbg (actual_request i) [] in
+      let want := permits c (cfg_patterns c) i in
+      verdict (outcome_same mp ip && outcome_same ma ia)
+              (Bool.eqb (browser_verdict i ip ia) want)
+              (SL [sbool (browser_verdict i mp ma); sbool want])
+  | _, _ => verdict false true (sym "model-rejects-config")
+  end.
+
+(* ---------- config: validation and Config() (C04, C05, C19's count clause) ---------- *)
+Definition run_config (x : sx) : sx :=
+  let l := get_list x in
+  let impl_ok := get_bool (field "accepted" l) in
+  let impl_errs := get_list (field "errors" l) in
+  let impl_cfg := field "config" l in
+  let typed_ok := get_bool (field "typedok" l) in     (* Go side: every error is a non-nil pointer to an exported type, message starts with "cors: " *)
+  let nil_mw := get_bool (field "nilmw" l) in          (* NewMiddleware returned a nil *Middleware *)
+  match dec_config (field "cfg" l) with
+  | None => verdict false false (sym "bad-config")
+  | Some c =>
+      let viol := map enc_cerr (violations ace ip6 psl c) in
+      let holds :=
+        if impl_ok then doc_ok ace ip6 psl c && negb nil_mw
+        else multiset_eqb viol impl_errs && typed_ok && nil_mw in
+      match new_internal_config ace ip6 psl c with
+      | inl ic =>
+          verdict (impl_ok && sx_eqb (enc_config (new_config ic)) impl_cfg) holds
+                  (SL [sym "accepted"; enc_config (new_config ic)])
+      | inr e =>
+          let me := map enc_cerr (flatten e) in
+          verdict (negb impl_ok && multiset_eqb me impl_errs) holds (SL (sym "rejected" :: me))
+      end
+  end.
+
 (* dispatcher: a case is (family id (k v)...) *)
 Definition run_case (x : sx) : sx :=
   match x with
@@ -148,7 +347,10 @@ Definition run_case (x : sx) : sx :=
         if beqb fam (b "all") then run_all (SL body)
         else if beqb fam (b "check") then run_check (SL body)
         else if beqb fam (b "tree") then run_tree (SL body)
-        else if beqb fam (b "psl") then sbool (psl (get_bytes (field "host" body)))
+        else if beqb fam (b "serve") then run_serve (SL body)
+        else if beqb fam (b "pair") then run_pair (SL body)
+        else if beqb fam (b "intent") then run_intent (SL body)
+        else if beqb fam (b "config") then run_config (SL body)
         else SL [sbool false; sbool false; sym "unknown-family"] in
       SL [id; r]
   | _ => SL [sym "bad-case"]
@@ -163,5 +365,6 @@ Definition oracle_tbl (k : String.string) (x : sx) : list sx :=
   | _ => []
   end.
 
+Arguments oracle_tbl _%string_scope _.
 Definition run_case_pure (x : sx) : sx :=
   run_case (ace_of (oracle_tbl "ace" x)) (ip6_of (oracle_tbl "ip6" x)) (psl_of (oracle_tbl "psl" x)) x.
